@@ -140,6 +140,7 @@ def check(rep, an, tier):
         F.forwards(rep, res, "ReceptorEstimator.fit_underdetermined", {"lsq_linear_underdetermined"},
                    {"A": "self.A", "lb": "self.lb", "ub": "self.ub", "W": "self.W", "K": "self.K", "baseline": "self.baseline",
                     "underdetermined_opt": "underdetermined_opt", "l2_eps": "l2_eps", "B": "B"})
+        F.wrapper_returns_solution(rep, res, "ReceptorEstimator.fit_underdetermined", {"lsq_linear_underdetermined"}, ("X", "B"))
         R.rule_effect_free(rep, res, "ReceptorEstimator.fit_underdetermined") if label == "vector" else None
     rep.require("R-DISPATCH", 14)
     rep.require("R-FLOW", 30)
